@@ -260,12 +260,14 @@ def case(ctx):
             mwt.add(["master-only"])
             mwt.commit("master moved", rev_id=b"master-moved-1")
             ctx.hist("bound-ood:" + ood)
-    except (errors.BzrError, OSError) as e:
-        ctx.discard("workload:%s" % type(e).__name__)
     except AttributeError as e:
         if "PointlessCommit" not in str(e):  # vf.gen.build_history names breezy.errors.PointlessCommit (lives in breezy.commit)
             raise
         ctx.discard("workload:gen-pointless-commit")
+    except Exception as e:
+        # building the history (commits, merges, add_pending_merge) is not the operation under test; e.g. the pre-built dirstate raises
+        # DirstateCorrupt from iter_changes on some trees with recorded-only merge parents (observed, reported, not a C16 verdict)
+        ctx.discard("workload:%s" % type(e).__name__)
     for v in range(VARIANTS[ctx.tier]):
         mode = "roundtrip" if (ctx.index // len(SETUPS) + v) % 3 == 0 else "depth"
         via = rng.choice(["api", "api", "cmd", "cmd-default"])
@@ -282,7 +284,8 @@ def case(ctx):
                 _roundtrip(ctx, rng, h, target, path2, master2, setup, via, keep_tags, local, npend, nch)
             else:
                 if not tree:
-                    Branch.open(path2).controldir.destroy_workingtree()
+                    # (destroy_workingtree() reverts first and trips over merge-modified records of paths that changed kind: IsADirectoryError)
+                    Branch.open(path2).controldir.destroy_workingtree_metadata()
                 _depth(ctx, rng, h, target, path2, master2, setup, via, keep_tags, local, tree, tags, npend if tree else 0, nch)
         except Discard as e:
             ctx.hist("discarded-variant:%s" % e)
